@@ -709,6 +709,23 @@ def run_case(store: Any, tpl: Dict[str, Any], model: Dict[str, Any], hid: str, p
             p = exp2.judge(o)
             if p:
                 note(here_i, p, observed=_brief(o), pointer=name)
+    # (iii) the pointer is lost ONCE MORE after a follow-up commit: the version the follow-up published must be the one
+    # recovery finds (a commit that numbered its metadata file from a dangling pointer would now be shadowed by an
+    # older, higher-numbered committed version)
+    if n_ok_appends and opened and not problems and not exp.lenient and judged:
+        here3 = ">".join(done + ["pointer_lost_again", "reopen"])
+        try:
+            store.plant(None)
+            t = load_table(store.loc)
+            o = observe(t)
+            trail.append({"op": here3, "observed": _brief(o)})
+            p = exp.judge(o)
+            if p:
+                note(here3, p, observed=_brief(o))
+            info.append("second_pointer_loss_checked")
+        except Exception as e:  # noqa
+            trail.append({"op": here3, "open_raised": repr(e)[:200]})
+            note(here3, "open_failed", error=repr(e)[:200])
     raw = view.get(HINT)
     return {"history": hid, "backend": store.backend, "pointer_fine": fine, "pointer": coarse,
             "followup": [op_name(o) for o in ops], "judged": judged, "problems": problems if judged else [],
